@@ -15,6 +15,7 @@ CONSTANTS
   AllowCrash = FALSE
   FixJournalNoPS = TRUE
   FixModeOnOpen = TRUE
+  AllowDropDB = FALSE
   AllowRetain = TRUE
   Emit = "end"
 INVARIANTS NoFault C04_Checksum C02_Image C02_Delta C02_Outcome C09_Chain CacheSound EmitInv
